@@ -34,6 +34,7 @@ KNOBS = {
     "middlewares": (0, 1),
     "p_mw_replace": 0.0,
     "outcomes": {"ret": 5, "exc": 4, "baseexc": 3, "nores": 2, "requeue": 0, "reject": 1},
+    "p_zero_timeout": 0.12,
     "label_msgs": True,
 }
 MARGIN_PER_STEP_US = 60_000
@@ -96,6 +97,13 @@ def oracle(script: dict, run: Any) -> List[Violation]:
             continue
         cbx = h.first(d, "cb_exit")
         fe = h.first(d, "fn_enter")
+        if cbx is not None and fe is None and m.get("timeout") is not None and float(m["timeout"]) == 0 and not h.of(d, "dep_fail"):
+            # zero timeout label: the body is cancelled before its first step; the stored result must be the timeout error
+            sv = h.of(d, "save_enter")
+            if len(sv) != 1 or not (sv[0][5]["is_err"] and sv[0][5]["err"] == "TimeoutError"):
+                out.append(Violation("C07/timeout-not-reported", f"delivery {d}: zero timeout label, the body never ran, but {len(sv)} results stored"
+                                     + (f" (is_err={sv[0][5]['is_err']} err={sv[0][5]['err']})" if sv else "")))
+            continue
         if cbx is None or fe is None:
             continue
         saves = h.of(d, "save_enter")
